@@ -102,13 +102,18 @@ def run(tier, seed, replay):
             res = vlib.tlc("Group", cfg=cfg, workers=8, timeout=900)
             vlib.tlc_expect_ok(res, "Group (order independence, import = add)")
             ck.add_tlc(res)
-        res = vlib.tlc("MCGroup", cfg="MCGroup" if tier == "quick" else "MCGroupT", workers=8, timeout=1800)
+        # (quick: histories of up to 4 operations, 1 500 of them; thorough: up to 5 operations - 930 000 histories - of which a
+        # seeded twelfth is replayed)
+        res = vlib.tlc("MCGroup", cfg="MCGroup" if tier == "quick" else "MCGroupT", workers=8, timeout=1800,
+                       sample=None if tier == "quick" else (12, seed))
         vlib.tlc_expect_ok(res, "MCGroup")
         ck.add_tlc(res)
         hists = res.cases
         if tier == "quick":
             hists = rnd.sample(hists, min(len(hists), 1500))
-    nproc = 4 if tier == "quick" else 8
+        else:
+            ck.notes.append("%d of %d histories replayed (seeded 1/12 sample of TLC's exhaustive enumeration)" % (len(res.cases), res.ncases))
+    nproc = 4 if tier == "quick" else 6
     cases = [{"id": i, "ops": ops_of(h["hist"]), "want": ["art"]} for i, h in enumerate(hists)]
     by_final = {}
     for pr in range(nproc):
@@ -123,12 +128,16 @@ def run(tier, seed, replay):
                 key = json.dumps({"final": h["final"], "hist": h["hist"]})
             if r["panic"]:
                 continue
-            by_final.setdefault(key, []).append((digest(r), h["hist"], r))
+            # (only the first result of every digest is kept: the artefacts of a million replays do not fit in memory)
+            dg = digest(r)
+            lst = by_final.setdefault(key, [])
+            lst.append((dg, h["hist"], None if any(d == dg for d, _, _ in lst) else r))
     for key, lst in by_final.items():
         ck.traces += len(lst)
         digs = {}
         for d, h, r in lst:
-            digs.setdefault(d, (h, r))
+            if r is not None:
+                digs.setdefault(d, (h, r))
         kk = json.loads(key)
         if isinstance(kk, list) and len(kk) >= 2 and len({json.dumps(h) for _, h, _ in lst}) >= 2:
             ck.nontrivial(key)
